@@ -16,6 +16,26 @@ def build_extractor_and_facts():
     return True, ''
 
 
+def build_xlate():
+    """regenerate Generated/Xlate.lean (Go subset -> Lean translation of the whitelisted functions).
+    The translator writes the file only when its content changes (keeps lake's cache valid); when
+    it fails the old file is deleted, so nothing is ever proved about a stale translation."""
+    rc, out = run(['go', 'build', '-o', 'xlate', './cmd/xlate'], cwd=EXTRACT, env=GOENV)
+    if rc == 0:
+        rc, out = run([os.path.join(EXTRACT, 'xlate'), REPO, XLATE], env=GOENV)
+        if rc == 0:
+            return True, ''
+        out = ('translation failed (a whitelisted function left the supported Go subset, or was renamed/removed):\n'
+               + out)
+    else:
+        out = 'translator build failed:\n' + out
+    try:
+        os.remove(XLATE)
+    except FileNotFoundError:
+        pass
+    return False, out
+
+
 def lake_build(targets):
     rc, out = run(['lake', 'build'] + targets, cwd=LEAN, timeout=3600)
     return rc == 0, out
